@@ -523,6 +523,13 @@ func (ex *Exec) evalModTarget(ctx *SpecCtx, c *Clause) []*modTarget {
 			}
 			return out
 		}
+		if id, ok := x.Fun.(*ast.Ident); ok && id.Name == "bytesOf" && len(x.Args) == 3 {
+			// bytesOf(arrayRef, off, len): the bytes [off, off+len) of a storage array
+			a := ctx.eval(x.Args[0])
+			off := ctx.term(ctx.eval(x.Args[1]), ex.env.IntS())
+			ln := ctx.term(ctx.eval(x.Args[2]), ex.env.IntS())
+			return []*modTarget{{kind: "elems", typ: types.Typ[types.Uint8], sl: &SliceV{Arr: ex.valTerm(a.V), Off: off, Len: ln, Cap: ln}, src: c.Src}}
+		}
 		if id, ok := x.Fun.(*ast.Ident); ok && id.Name == "global" {
 			// global(pkgvar)
 			sv := ctx.eval(x.Args[0])
